@@ -125,7 +125,9 @@ def hasSuffix (sfx str : Bytes) : R Bool :=
 
 /-! ## slice -/
 
-/-- `cfun_string_slice`: `JanetRange range = janet_getslice(argc, argv);
+/-- `cfun_string_slice` (also `cfun_symbol_slice`, `cfun_keyword_slice`, `cfun_buffer_slice`): `janet_arity(argc, 1, 3);` first
+    (since /repo 06301a5: before that the arity was only checked inside `janet_getslice`, after `argv[0]` had been read —
+    the arity decode is the driver's, see the arity family of the check), then `JanetRange range = janet_getslice(argc, argv);
       return janet_stringv(view.bytes + range.start, range.end - range.start);`
     (`Spec.getslice` is the mirror of capi.c `janet_getslice`, see `halfrange_spec` / `slice_spec`) -/
 def slice (s : Bytes) (st en : Option Int) : R Bytes :=
